@@ -114,12 +114,14 @@ class LocationPath(BaseASTNode):
 
             if node in new:
                 intermediate.update(stack)
-            else:
-                stack = stack + [node]
-                for i in node.values():
-                    if queryIndirect or i.direct:
-                        traverse(i.node, stack)
-                visited.add(node)
+
+            # Always descend further. There might be more result nodes below
+            # a result node that are only reachable through other nodes.
+            stack = stack + [node]
+            for i in node.values():
+                if queryIndirect or i.direct:
+                    traverse(i.node, stack)
+            visited.add(node)
 
         for n in old: traverse(n, [])
 
